@@ -3,7 +3,7 @@
 Finite tables, extracted from the type-checked MIR and compared exhaustively."""
 import re
 
-from .. import paths, ref, cfg
+from .. import paths, ref, cfg, prov
 from ..facts import Body
 from ..common import lexer_tables, statement_dispatch
 
@@ -14,27 +14,61 @@ ADAPTORS = re.compile(r"std::iter::Iterator::(filter|filter_map|skip|take|step_b
                       r"map_while|flat_map|dedup|nth)$")
 
 
-def offered_labels(ck, prog, fn):
-    b = prog.body(COMPLETION + fn)
+def harvest(ck, prog):
+    """every CompletionItem constructor site of the completion module (functions and closures):
+    -> {root function name: [(kind variant, [labels])]}; labels are the constant first argument, or - when the label is a
+    loop / iterator element - the constant string arrays and slices of the enclosing function"""
+    mod = "ide::handlers::completion::"
+    is_words = lambda ty: "&str" in ty and "[" in ty
+    out = {}
+    for pth, b in prog.bodies.items():
+        if not pth.startswith(mod):
+            continue
+        root = b
+        while root.parent and prog.body(root.parent) is not None:
+            root = prog.body(root.parent)
+        for i, t in b.calls():
+            c = Body.callee(t)
+            if c not in ITEM_CTORS:
+                continue
+            kind = None
+            for a in t["args"]:
+                for o in prov.origins(b, a):
+                    if o[0] == "agg" and str(o[1]).endswith("CompletionItemKind"):
+                        for st in b.blocks[o[2]]["s"]:
+                            ag = (st.get("rv") or {}).get("agg")
+                            if isinstance(ag, dict) and str(ag.get("adt", "")).endswith("CompletionItemKind"):
+                                kind = ag.get("variant")
+            label = paths.const_str(t["args"][0])
+            if label is not None:
+                labels = [label]
+            else:
+                labels = []
+                seen = set()
+                for body in (b, root):
+                    for cst, lst in paths.const_arrays_in(body, is_words):
+                        if tuple(lst) not in seen:
+                            seen.add(tuple(lst))
+                            labels.extend(lst)
+                if not labels and kind != "Class":
+                    ck.anchor(False, "%s builds completion labels (kind %s) from a non-constant source" % (root.path, kind))
+            out.setdefault(root.path.rsplit("::", 1)[-1], []).append((kind, labels))
+            ROOTS[root.path.rsplit("::", 1)[-1]] = root
+    return out
+
+
+ROOTS = {}
+
+
+def offered_labels(ck, prog, fn, table=None):
+    table = table if table is not None else harvest(ck, prog)
+    b = prog.body(COMPLETION + fn) or ROOTS.get(fn)
     ck.anchor(b is not None, "completion function %s not found" % fn)
     labels = []
-    dynamic = 0
-    for i, t in b.calls():
-        if Body.callee(t) in ITEM_CTORS:
-            s = paths.const_str(t["args"][0])
-            if s is not None:
-                labels.append(s)
-            else:
-                dynamic += 1
-    arrays = paths.const_arrays_in(b, lambda ty: "&str;" in ty or "&'static str;" in ty)
-    seen = set()
-    for c, lst in arrays:
-        key = tuple(lst)
-        if key in seen:
-            continue
-        seen.add(key)
-        labels.extend(lst)
-    ck.anchor(not (dynamic and not arrays), "%s builds labels from a non-constant source" % fn)
+    for kind, ls in table.get(fn, []):
+        for w in ls:
+            if w not in labels:
+                labels.append(w)
     ck.anchor(labels, "%s offers no constant label" % fn)
     return b, labels
 
@@ -69,8 +103,13 @@ def run(ck, prog):
     dispatch = statement_dispatch(ck, prog)  # kind -> callee or 'ERROR'
 
     total = 0
-    for fn in ("complete_toplevel_keywords", "complete_primitive_types", "complete_primitive_values"):
-        b, labels = offered_labels(ck, prog, fn)
+    table = harvest(ck, prog)
+    for need in ("complete_toplevel_keywords", "complete_primitive_types", "complete_primitive_values", "complete_bang_operators"):
+        ck.anchor(need in table, "completion function %s offers nothing / not found" % need)
+    # every function of the module that offers constant words (other than the bang operators and the class names)
+    word_fns = [fn for fn in table if fn != "complete_bang_operators" and any(k != "Class" and ls for k, ls in table[fn])]
+    for fn in sorted(word_fns, key=lambda f: (f not in ("complete_toplevel_keywords", "complete_primitive_types", "complete_primitive_values"), f)):
+        b, labels = offered_labels(ck, prog, fn, table)
         for w in labels:
             total += 1
             k = kw.get(w)
@@ -83,7 +122,7 @@ def run(ck, prog):
                       "statement() dispatches %s to %s" % (k, d),
                       msg="file-level keyword '%s' is offered but statement() has no arm for %s" % (w, k))
 
-    b, offered = offered_labels(ck, prog, "complete_bang_operators")
+    b, offered = offered_labels(ck, prog, "complete_bang_operators", table)
     for w in offered:
         total += 1
         inlex = w in ops
@@ -112,7 +151,12 @@ def run(ck, prog):
         bad += [x for x in (Body.callee(t) for _, t in c.calls()) if x and ADAPTORS.search(x)]
     ck.ob("R20.5", "no-filter", not bad, "no filtering iterator adaptor in complete_classes",
           msg="complete_classes filters/limits the class or template-argument iteration: %s" % bad)
-    has_targs = any(c == "ide::symbol_map::record::Record::iter_template_arg" for c in calls)
+    allb = [cb]
+    k_ = 0
+    while k_ < len(allb):
+        allb += prog.closures_of(allb[k_].path)
+        k_ += 1
+    has_targs = any(Body.callee(t) == "ide::symbol_map::record::Record::iter_template_arg" for x in allb for _, t in x.calls())
     ck.ob("R20.5", "iter_template_arg", has_targs, "placeholders are built from Record::iter_template_arg",
           msg="complete_classes does not enumerate the class's template arguments")
     # every iteration pushes exactly one item: in the loop over iter_class, no path from the Some arm
@@ -125,13 +169,31 @@ def run(ck, prog):
         p = cfg.path_exists(cb, n, lambda x: x == n, avoid=pushes)
         if p is not None:
             ok = False
+    if not ok and not pushes:
+        # iterator form: iter_class().map(|id| CompletionItem::new_snippet(..)) handed to extend / collect
+        for i, t in cb.calls():
+            if not (Body.callee(t) or "").endswith("Iterator::map"):
+                continue
+            if not any(x[0] == "call" and x[1].endswith("SymbolMap::iter_class") for x in prov.origins(cb, t["args"][0])):
+                continue
+            for ga in (t["f"].get("args") or []):
+                mb = prog.body(ga.get("closure")) if isinstance(ga, dict) and ga.get("closure") else None
+                if mb is None:
+                    continue
+                ctors = cfg.blocks_calling(mb, lambda c: c in ITEM_CTORS)
+                every = bool(ctors) and cfg.path_exists(mb, 0, lambda x: mb.term(x)["k"] == "return", avoid=ctors, include_src=True) is None
+                sunk = any(re.search(r"(Extend<.*>>::extend|Vec::<T, A>::extend|Iterator::collect|Iterator::for_each)$", Body.callee(t2) or "") and
+                           any(x[0] == "call" and x[2] == i for a in t2["args"] for x in prov.origins(cb, a))
+                           for _, t2 in cb.calls())
+                if every and sunk:
+                    ok = True
     ck.ob("R20.5", "push-per-class", ok, "every loop iteration reaches Vec::push before the next class",
           msg="some iteration of the class loop skips the push (a class would not be offered)")
     # R20.8 ------------------------------------------------------------------
     # the records complete_classes describes are the ones the class name map points at; a class is usually declared
     # (`class X;`) before it is defined (`class X<int a> {..}`), each statement allocating its own record: the map must
     # point at the most recent one, i.e. every registration overwrites the entry with the freshly allocated id.
-    from .. import prov as _prov
+    _prov = prov
     ib = prog.body("ide::symbol_map::SymbolMap::iter_class")
     ck.anchor(ib is not None, "SymbolMap::iter_class not found")
     fields = set()
@@ -208,7 +270,7 @@ def run(ck, prog):
     # R20.6 ------------------------------------------------------------------
     # whenever the request's trigger character is `!`, the bang operators are offered: from the true edge of the
     # comparison of the trigger argument, no path reaches the return without calling complete_bang_operators
-    from .. import prov
+    pass
     xb = prog.body("ide::handlers::completion::exec")
     ck.anchor(xb is not None, "completion::exec not found")
     cmp_sites = []
